@@ -565,7 +565,11 @@ func main() {
 			genSync(r, emit, 2*n, tier)
 			genVerify(r, emit, n/2)
 			genRace(r, emit, n/10)
-			genLcp(r, emit, n/2)
+			nl := n / 2
+			if nl > 1000 {
+				nl = 1000 // every run opens real TCP connections: keep clear of the ephemeral port range
+			}
+			genLcp(r, emit, nl)
 			live := 6
 			if tier == "thorough" {
 				live = 40
